@@ -397,6 +397,14 @@ def artifact_tokens(obs):
     return have, ref, ref_loc
 
 
+def shared_insert_complete(sc, res, c):
+    P = res["pre_obs"]
+    targets = op_targets(sc["op"], P)
+    new_ones = [d for d in targets if _vec2(P, d) == NOTHING2 and d not in P["raw_trash"]]
+    flags = [present2(c["obs"], d, targets[d]) for d in new_ones]
+    return bool(flags) and all(flags)
+
+
 def check_shared(ctx: Ctx, sc, res, origin):
     pre, op = sc["pre"], sc["op"]
     P = res["pre_obs"]
@@ -595,6 +603,99 @@ def ccase(sc, res):
             + ";\n    ".join(seq) + "]\n   [" + ";\n    ".join(pts) + "]")
 
 
+# ---- literals for the shared-artifact model (Model/CrashShared.v, Model/CrashSharedCheck.v)
+ZIPA, ZIPV = 50, 7000
+HDR_S = ("From Coq Require Import NArith List.\nFrom V Require Import Model.Crash Model.CrashCheck Model.CrashShared Model.CrashSharedCheck.\n"
+         "Import ListNotations.\nOpen Scope N_scope.\n")
+REFUSED = "SStore false 0 0 []"
+
+
+def sops(op, ord_=(), staged=None):
+    """The shared model's operations an implementation call stands for (`staged`: slots whose staging file exists)."""
+    k = op[0]
+    if k == "put":
+        return [f"SStore false {op[1]} {op[2]} [{op[1]}]"]
+    if k == "mput":
+        return [f"SStore false {d} {v} [{d}]" for d, v in op[1]]
+    if k == "ingest":
+        d = op[2]
+        if staged is not None and d not in staged:
+            return [REFUSED]
+        return [f"SStore {'true' if op[1] == 'move' else 'false'} {d} {100 + d} [{d}]"]
+    if k == "transfer":
+        return [f"SStore false {d} {200 + d} [{d}]" for d in op[1]]       # completed transfers of a pre-history only
+    if k == "ingestmulti":
+        l = op[2]
+        if not l or (staged is not None and l[0] not in staged):
+            return [REFUSED]
+        return [f"SStore {'true' if op[1] == 'move' else 'false'} {l[0]} {100 + l[0]} {nl(l)}"]
+    if k == "ingestzip":
+        return [f"SStore false {ZIPA} {ZIPV} {nl(op[1])}"]
+    if k == "prune":
+        return [f"SPrune {nl(op[1])} {nl(ord_)}"]
+    if k == "unstore":
+        return [f"SUnstore {nl(op[1])} {nl(ord_)}"]
+    if k == "trash":
+        return [f"STrash {nl(op[1])}"]
+    if k == "emptytrash":
+        return [f"SEmptyTrash {nl(ord_)}"]
+    raise ValueError(op)
+
+
+def scobs(o):
+    tok = lambda x: ZIPA if x == "zip" else x  # noqa: E731
+    recs = [x for i, tk in o["raw_recs_id"] for x in (i, tok(tk))]
+    files = [x for d, v in o["files"] for x in (d, v if v >= 0 else PARTIAL)] + [x for _, ok in o["zips"][:1] for x in (ZIPA, ZIPV if ok else PARTIAL)]
+    tmp = sorted((v if v >= 0 else PARTIAL) for _, v in o["odd"])
+    ex = [x for e in o["exists"] for x in (e[0], *(y if y >= 0 else 9 for y in e[1:]))]
+    tok_of = {i: tk for i, tk in o["raw_recs_id"]}
+    gt = []
+    for d, slot, v in o["get_raw"]:
+        if v == -1:
+            val = MISSING
+        elif v < 0:
+            val = CORRUPT
+        elif tok_of.get(d) == "zip":
+            val = ZIPV if (slot, v) == (d, 200 + d) else CORRUPT
+        else:
+            val = v if tok_of.get(d) == slot else CORRUPT
+        gt += [d, val]
+    return "[" + ";".join(nl(r) for r in (o["raw_ds"], o["raw_loc"], o["raw_trash"], recs, files, tmp, ex, gt)) + "]"
+
+
+def gone_ids(res):
+    """emptyTrash's row order as far as it shows: the ids whose artifacts disappear, in the order they disappear."""
+    P = res["pre_obs"]
+    toks = lambda o: [d for d, _ in o["files"]] + (["zip"] if o["zips"] else [])  # noqa: E731
+    prev, gone = toks(P), []
+    for c in res["crashes"]:
+        cur = toks(c["obs"])
+        gone += [t for t in prev if t not in cur and t not in gone]
+        prev = cur
+    return [i for t in gone for i, tk in P["raw_recs_id"] if tk == t and i != 99]
+
+
+def sccase(sc, res):
+    pre_ops = [x for o, out in zip(sc["pre"], res["pre_out"]) if out == "Ok" for x in sops(o)]
+    staged = {d for d, _ in res["pre_obs"]["ext"]}
+    op = sops(sc["op"], gone_ids(res), staged)[0]
+    seq, last = [], None
+    for c in res["crashes"]:
+        o = scobs(c["obs"])
+        if o != last:
+            seq.append(o)
+        last = o
+    pts = []
+    for c in res["crashes"]:
+        st2 = {d for d, _ in c["obs"]["ext"]}
+        fl = ["([" + "; ".join(x for o in f["ops"] for x in sops(o, (), st2)) + "], " + scobs(f["obs"]) + ")" for f in c["follow"]]
+        if sc["op"][0] == "ingestzip" and shared_insert_complete(sc, res, c):
+            fl = []     # re-ingesting a zip that is completely there: the refusal itself is destructive (C09's known finding)
+        pts.append("(" + scobs(c["obs"]) + ", [" + ";\n      ".join(fl) + "])")
+    return ("mkSCase [" + "; ".join(pre_ops) + "]\n   " + scobs(res["pre_obs"]) + "\n   (" + op + ")\n   ["
+            + ";\n    ".join(seq) + "]\n   [" + ";\n    ".join(pts) + "]")
+
+
 SK = {"sql:BEGIN": 20, "sql:COMMIT": 21, "sql:INSERT dataset": 1, "sql:INSERT dataset_location": 2, "sql:INSERT file_datastore_records": 3,
       "sql:DELETE dataset_location": 4, "sql:INSERT dataset_location_trash": 5, "sql:DELETE dataset": 6, "sql:DELETE collection": 7,
       "sql:DELETE file_datastore_records": 8, "sql:DELETE dataset_location_trash": 9, "fs:write": 30, "fs:copy": 30, "fs:rename": 31,
@@ -684,10 +785,10 @@ def run(ctx: Ctx):
         "os.rename / replace / remove / unlink, shutil.copy*), dying BEFORE the event; mid-write = half of the bytes, then death",
     ]
     ctx.cov["rule"] = nontrivial_rule.__doc__.replace("\n    ", " ") + " " + nontrivial_shared.__doc__.replace("\n    ", " ")
-    props_ok = ctx.build_props(extra_targets=["Model/CrashCheck.vo"])
+    props_ok = ctx.build_props(extra_targets=["Model/CrashCheck.vo", "Model/CrashSharedCheck.vo"])
     if not props_ok:
         from harness.common import coq_make
-        coq_make(["Model/CrashCheck.vo"])
+        coq_make(["Model/CrashCheck.vo", "Model/CrashSharedCheck.vo"])
 
     scs, origins = [], []
     for f in sorted(glob.glob(str(VERIF / "corpus" / "C08" / "*.json"))):
@@ -708,7 +809,7 @@ def run(ctx: Ctx):
     # longest first so that the pool drains evenly
     results = execute(ctx, scs, points)
 
-    cases, meta, skels = [], [], []
+    cases, meta, skels, scases, smeta = [], [], [], [], []
     for sc, res, org in zip(scs, results, origins):
         if res is None:
             continue
@@ -727,6 +828,8 @@ def run(ctx: Ctx):
             ctx.hist("shared_artifact_states", sum(1 for c in res["crashes"] if len({r[1] for r in c["obs"]["raw_recs_id"]}) < len(c["obs"]["raw_recs_id"])))
             if nontrivial_shared(sc, res):
                 ctx.nontrivial({"pre": sc["pre"], "op": sc["op"]})
+            scases.append(sccase(sc, res))
+            smeta.append((sc, res, org))
             continue
         if nontrivial_rule(sc, res):
             ctx.nontrivial({"pre": sc["pre"], "op": sc["op"]})
@@ -760,6 +863,23 @@ def run(ctx: Ctx):
             extra = " model sequence: " + " ".join(txt2.split())[:900]
         ctx.disagreement("crash", {"origin": org, "pre": sc["pre"], "op": sc["op"], "trace": res["free"]["trace"]},
                          f"model differs on {detail}.{extra}")
+
+    if scases:
+        ctx.sample({"shared_coq_case_prefix": scases[0][:1200]})
+        bad_s = ctx.coq_cases("shared", HDR_S, scases, f"chk_scase {UNIV}", shard=4 if ctx.quick else 8, timeout=900)
+        for i in (bad_s or [])[:5]:
+            sc, res, org = smeta[i]
+            rc, txt = ctx.coq_eval("swhere", HDR_S, f"chk_swhere {UNIV} ({scases[i]})")
+            m = re.search(r"=\s*(\d+)\s*\n?\s*:\s*N", txt)
+            where = int(m.group(1)) if m else -1
+            detail = {1: "the state after the fault-free pre-history", 2: "the sequence of distinct crash states"}.get(
+                where, f"crash point #{where - 10} (at event {res['crashes'][where - 10]['at'] if 10 <= where < 10 + len(res['crashes']) else '?'}) or its follow-ups")
+            extra = ""
+            if where in (1, 2):
+                rc2, txt2 = ctx.coq_eval("sseq", HDR_S, f"{'smodel_pre' if where == 1 else 'smodel_seq'} {UNIV} ({scases[i]})")
+                extra = " model: " + " ".join(txt2.split())[:900]
+            ctx.disagreement("shared", {"origin": org, "pre": sc["pre"], "op": sc["op"], "trace": res["free"]["trace"], "model": False},
+                             f"shared-artifact model differs on {detail}.{extra}")
 
     if skels:
         sbad = ctx.coq_cases("skel", HDR + "Definition chk_skel (c : list op * list op * list N) : bool := "
